@@ -2572,7 +2572,7 @@ def c15_switches(sp: ase.Sprite, rng: random.Random) -> List[Tuple[str, ase.Spri
 
 def check_C15(tier: str, seed: int) -> int:
     v = Verdict("C15", tier, seed, "proof")
-    ob = vplib.check_obligations("C15", expected=["C15_propagation", "C15_pixel_ratio", "C15_color_depth", "C15_layer_type", "C15_blend_mode", "C15_cel_type", "C15_bits_per_tile", "C15_anim_direction", "C15_icc_profile", "C15_fixed_gamma", "C15_external_tileset"])
+    ob = vplib.check_obligations("C15", expected=["C15_propagation", "C15_pixel_ratio", "C15_color_depth", "C15_layer_type", "C15_blend_mode", "C15_cel_type", "C15_bits_per_tile", "C15_anim_direction", "C15_icc_profile", "C15_fixed_gamma", "C15_external_tileset"], extra_files=["C15_e2e"])
     vplib.build_harness(["release"])
     w = Work("C15")
     try:
